@@ -168,7 +168,7 @@ func parseExprCase(text string, params map[string]interface{}) (resp string, e i
 	}
 	mt, mr := influxql.VerifMaxPushback()
 	var b sb
-	b.open(); b.atom(0); b.sp(); b.expr(e); b.sp(); b.atom(int64(mt)); b.sp(); b.atom(int64(mr)); b.close()
+	b.open(); b.atom(0); b.sp(); b.expr(e); b.sp(); b.boolean(mt <= 3); b.sp(); b.boolean(mr <= 3); b.close()
 	return b.String(), e, nil, nil
 }
 
@@ -203,7 +203,7 @@ func parseStmtCase(text string, params map[string]interface{}) (resp string, st 
 	}
 	mt, mr := influxql.VerifMaxPushback()
 	var b sb
-	b.open(); b.atom(0); b.sp(); b.stmt(st); b.sp(); b.atom(int64(mt)); b.sp(); b.atom(int64(mr)); b.close()
+	b.open(); b.atom(0); b.sp(); b.stmt(st); b.sp(); b.boolean(mt <= 3); b.sp(); b.boolean(mr <= 3); b.close()
 	return b.String(), st, nil, nil
 }
 
@@ -244,7 +244,7 @@ func parseQueryCase(text string, params map[string]interface{}) (resp string, q 
 		}
 		b.stmt(s)
 	}
-	b.close(); b.sp(); b.atom(int64(mt)); b.sp(); b.atom(int64(mr)); b.close()
+	b.close(); b.sp(); b.boolean(mt <= 3); b.sp(); b.boolean(mr <= 3); b.close()
 	return b.String(), q, nil, nil
 }
 
